@@ -37,7 +37,7 @@ META = {
                    "filter dispatch is checked for text-typed filters."
                    " Also: dominance of the table rebuild over every format writer, no loop editing the list it iterates, structure of the ledger scan in getCost, sibling agreement of allocation forms between booking and cost code, kind-preserving sort key, uninterpreted filter text (known finding F57) and the shared-container census under report generation."
                    " Round 3: the file writers receive the rendering itself, not a selection of its rows."
-                   " Round 4: fresh content generator per generation, case folding of case-insensitive terminals, memo rules under report generation.",
+                   " Round 4: fresh content generator per generation, case folding of case-insensitive terminals, memo rules under report generation. Round 8: JSON and CSV select body rows by the same tests; no early exit of the intermediate-format builder on the previous content.",
     "assumptions": [],
 }
 
